@@ -259,7 +259,7 @@ func (s *SimLog) StoreLogs(logs []*raft.Log) error {
 	inc := s.inc
 	inc.mu.Lock()
 	defer inc.mu.Unlock()
-	emit, err := inc.mutGate("storelogs", true)
+	emit, err := inc.mutGate("storelogs", false)
 	if err != nil {
 		return err
 	}
@@ -293,7 +293,7 @@ func (s *SimLog) DeleteRange(min, max uint64) error {
 	inc := s.inc
 	inc.mu.Lock()
 	defer inc.mu.Unlock()
-	emit, err := inc.mutGate("delrange", true)
+	emit, err := inc.mutGate("delrange", false)
 	if err != nil {
 		return err
 	}
@@ -374,7 +374,7 @@ func (k *simSink) Close() error {
 	inc := k.s.inc
 	inc.mu.Lock()
 	defer inc.mu.Unlock()
-	emit, err := inc.mutGate("snapclose", true)
+	emit, err := inc.mutGate("snapclose", false)
 	if err != nil {
 		return err
 	}
